@@ -273,6 +273,64 @@ def differential(ctx, pop, classes):
         for n in [0, 1, 255, 256, 2 ** (bits - 8) - 1, 2 ** (bits - 8), 2 ** bits - 1, 2 ** (bits - 1)] + [rng.getrandbits(bits) >> rng.choice([0, 0, 8, 16, 9]) for _ in range(20)]:
             lines.append(f"key.eccoord {n} {bits}")
             impls.append(lambda n=n, bits=bits: ("H", ec_key._coordinate_to_base64(n, bits).encode()))
+    # JWK spelling of key numbers (Jose/KeyExport.lean, Props/C11Export.lean): the bindings' export from the numbers of
+    # every RSA / EC key of the population, and their import of the exported (and of respelled) dicts back to numbers
+    from joserfc.rfc7518.rsa_key import RSABinding
+    from joserfc.rfc7518.ec_key import ECBinding
+    for label, key in pop:
+        if key.key_type == "RSA":
+            pubn = key.public_key.public_numbers()
+            lines.append(f"key.export rsa-pub {pubn.n} {pubn.e}")
+            impls.append(lambda key=key: ("J", dict(RSABinding.export_public_key(key.public_key))))
+            if key.is_private:
+                pn = key.raw_value.private_numbers()
+                lines.append(f"key.export rsa-priv {pubn.n} {pubn.e} {pn.d} {pn.p} {pn.q} {pn.dmp1} {pn.dmq1} {pn.iqmp}")
+                impls.append(lambda key=key: ("J", dict(RSABinding.export_private_key(key.raw_value))))
+                full = dict(RSABinding.export_private_key(key.raw_value))
+                variants = [full, {k_: v for k_, v in full.items() if k_ != "qi"}, dict(full, n="AAAA" + full["n"]), dict(full, e=""), dict(full, d=full["d"] + "="),
+                            dict(full, p=full["p"][:-1] + "+"), {k_: v for k_, v in full.items() if k_ != "e"}]
+                for v in variants:
+                    if all(m in v for m in ("p", "q", "dp", "dq", "qi")):     # the branch the model covers (has_all_prime_factors)
+                        lines.append(f"key.import rsa-priv {enc_jval(v)}")
+
+                        def imp(v=v):
+                            k2 = RSABinding.import_private_key(dict(v)).private_numbers()
+                            return ("S", f"{k2.public_numbers.n},{k2.public_numbers.e},{k2.d},{k2.p},{k2.q},{k2.dmp1},{k2.dmq1},{k2.iqmp}")
+                        impls.append(imp)
+            pubd = dict(RSABinding.export_public_key(key.public_key))
+            for v in (pubd, dict(pubd, n="AAAA" + pubd["n"]), {"n": pubd["n"]}, dict(pubd, e="AQ AB"), dict(pubd, e="é")):
+                lines.append(f"key.import rsa-pub {enc_jval(v)}")
+
+                def imp2(v=v):
+                    k2 = RSABinding.import_public_key(dict(v)).public_numbers()
+                    return ("S", f"{k2.n},{k2.e}")
+                impls.append(imp2)
+        elif key.key_type == "EC":
+            pubn = key.public_key.public_numbers()
+            bits = pubn.curve.key_size
+            crv = key.curve_name
+            lines.append(f"key.export ec-pub {hx(crv.encode())} {bits} {pubn.x} {pubn.y}")
+            impls.append(lambda key=key: ("J", dict(ECBinding.export_public_key(key.public_key))))
+            pubd = dict(ECBinding.export_public_key(key.public_key))
+            if key.is_private:
+                dv = key.raw_value.private_numbers().private_value
+                lines.append(f"key.export ec-priv {hx(crv.encode())} {bits} {pubn.x} {pubn.y} {dv}")
+                impls.append(lambda key=key: ("J", dict(ECBinding.export_private_key(key.raw_value))))
+                full = dict(ECBinding.export_private_key(key.raw_value))
+                for v in (full, dict(full, d="AAAA" + full["d"]), dict(full, crv="P-999"), {k_: x for k_, x in full.items() if k_ != "d"}, dict(full, d="")):
+                    lines.append(f"key.import ec-priv {enc_jval(v)}")
+
+                    def imp3(v=v):
+                        k2 = ECBinding.import_private_key(dict(v)).private_numbers()
+                        return ("S", f"{hx(ECBinding._curves_dss[k2.public_numbers.curve.name].encode())},{k2.public_numbers.x},{k2.public_numbers.y},{k2.private_value}")
+                    impls.append(imp3)
+            for v in (pubd, dict(pubd, crv="p-256"), {k_: x for k_, x in pubd.items() if k_ != "y"}, dict(pubd, x="AAAA" + pubd["x"])):
+                lines.append(f"key.import ec-pub {enc_jval(v)}")
+
+                def imp4(v=v):
+                    k2 = ECBinding.import_public_key(dict(v)).public_numbers()
+                    return ("S", f"{hx(ECBinding._curves_dss[k2.curve.name].encode())},{k2.x},{k2.y}")
+                impls.append(imp4)
     # RSA CRT rule
     from joserfc.rfc7518.rsa_key import has_all_prime_factors
     for _ in range(40):
@@ -342,7 +400,7 @@ def differential(ctx, pop, classes):
             continue
         if m.startswith("ok "):
             body = m[3:]
-            if op == "key.asdict":
+            if op in ("key.asdict", "key.export"):
                 mo = ("ok", wire.dec_jval(body))
             elif op == "key.eccoord":
                 mo = ("ok", wire.unhx(body))
